@@ -771,6 +771,33 @@ func ReplayFile(o Options, path string) int {
 		fmt.Println(err)
 		return 2
 	}
+	if schedDependent(r.Model) {
+		// fixes a goroutine schedule / select choice / map order: re-execute deterministically in the interpreter
+		overlay, err := BuildOverlay(o.Repo, hs, map[string]string{r.Pkg: name})
+		if err != nil {
+			fmt.Println(err)
+			return 2
+		}
+		pr, spkgs, err := Load(o.Repo, []string{r.Pkg}, overlay)
+		if err != nil {
+			fmt.Println("harness does not build against the current tree:", err)
+			return 2
+		}
+		fn := spkgs[r.Pkg].Func(r.Harness)
+		if fn == nil {
+			fmt.Println("harness function not found:", r.Harness)
+			return 2
+		}
+		res, viols, _ := pr.RunConcrete(fn, RunConfig{Harness: r.Harness, Params: r.Params, Concrete: r.Model})
+		fmt.Printf("interpreter re-execution under the recorded schedule / map order: end=%s %s\n", res.End, res.Msg)
+		for _, v := range viols {
+			fmt.Printf("  failed obligation: %s\n", v.AssertID)
+			if v.AssertID == r.AssertID {
+				return 1
+			}
+		}
+		return 0
+	}
 	tmp, _ := os.MkdirTemp("", "symgo-replay-")
 	defer os.RemoveAll(tmp)
 	rb := &replayBuild{dir: tmp, bin: map[string]string{}, err: map[string]string{}}
